@@ -3,7 +3,7 @@ import KavaVerif.Model.Bep3
 /-!
   C13 driver (x/bep3 atomic swaps).  One self-contained case per line:
 
-    c13.op  kind  cfg  pre  args  hashes  limStable  =>  result  post
+    c13.op  kind  cfg  pre  args  hashes  limStable  shadow  =>  result  post
 
   kind    create | claim | refund | begin | setlimit
   cfg     module;macc bits;blocked bits
@@ -16,6 +16,10 @@ import KavaVerif.Model.Bep3
           refund: from,id   begin: dh,dt   setlimit: d,limit,timeLimited,period,tbl,active
   hashes  sid entries `hash,sender,other,id;…` | H entries `secret,ts,hash;…` observed on the real
           CalculateSwapID / CalculateRandomHash (byte strings interned injectively)
+
+  shadow  d,elapsed,window;…  the harness's own period clock after the operation: real time accumulated
+          since the reset it computes itself (from its own log of block times, per asset independently) and
+          the incoming amounts it saw claimed under a time limit since then; never read from the implementation
 
   The handler (1) runs the Lean model on the observed pre-state and compares it with the observed
   post-state (MISMATCH) and (2) evaluates the C13 predicates on the implementation's own observation,
@@ -401,10 +405,41 @@ def stepPreds (cfg : Cfg) (t : Tabs) (cmd : Cmd) (ok : Bool) (pre post : OSt) : 
       else none)
   first [perSwap, newOk, closeOk, fundsOk, bankOk, currentOk, limitsOk, tlOk]
 
+def winOf (shadow : List (List Int)) (d : Nat) : Int :=
+  match shadow.find? (fun r => r.getD 0 (-1) == (d : Int)) with
+  | some r => r.getD 2 0
+  | none => 0
+
+/-- the time-limited allowance against the harness's own period clock (not the stored TimeElapsed) -/
+def shadowPreds (cmd : Cmd) (ok : Bool) (pre post : OSt) (shadow : List (List Int)) : Option String :=
+  -- within one real period the accepted incoming volume stays within the time-based limit
+  let exceeded : Option String :=
+    if !ok then none else
+    match cmd with
+    | .create _ _ _ snd _ _ [(d, _)] => (match assetOf pre d with
+        | some a => if snd == a.deputy && a.timeLimited && decide (winOf shadow d + (supOf post d).incoming > a.tbl)
+            then some (predfail "C13_limits" s!"time-limit-exceeded-within-period create denom={d}") else none
+        | none => none)
+    | .claim _ id _ => (match findById pre.swaps id with
+        | some p => (match assetOf pre p.denom with
+            | some a => if p.dir == .incoming && a.timeLimited && decide (winOf shadow p.denom > a.tbl)
+                then some (predfail "C13_limits" s!"time-limit-exceeded-within-period claim denom={p.denom}") else none
+            | none => none)
+        | none => none)
+    | _ => none
+  let drift : Option String := shadow.findSome? (fun r => match r with
+    | [d, el, win] =>
+      let sp := supOf post d.toNat
+      if sp.elapsed != el then some (predfail "C13_limits" s!"time-elapsed-drift denom={d}")
+      else if sp.tlCurrent != win then some (predfail "C13_limits" s!"time-limited-current-drift denom={d}")
+      else none
+    | _ => some (badInput "shadow"))
+  first [exceeded, drift]
+
 def handle : Handler
-  | [kind, cfg, pre, args, tabs, limStable, _, result, post] =>
-    match parseCfg cfg, parseSt pre, ints? args, parseTabs tabs, bool? limStable, parseSt post with
-    | some cfg, some pre, some args, some tabs, some limStable, some post =>
+  | [kind, cfg, pre, args, tabs, limStable, shadow, _, result, post] =>
+    match parseCfg cfg, parseSt pre, ints? args, parseTabs tabs, bool? limStable, parseSt post, rows shadow with
+    | some cfg, some pre, some args, some tabs, some limStable, some post, some shadow =>
       match parseCmd kind args with
       | none => badInput "args"
       | some cmd =>
@@ -412,9 +447,11 @@ def handle : Handler
         --     evaluated first so that a broken implementation is reported with its failing input)
         let pf : Option String :=
           if result == "panic" then some (predfail "C13_no_panic" kind)
-          else match statePreds cfg post limStable with
+          else match shadowPreds cmd (result == "ok") pre post shadow with
             | some f => some f
-            | none => stepPreds cfg tabs cmd (result == "ok") pre post
+            | none => match statePreds cfg post limStable with
+              | some f => some f
+              | none => stepPreds cfg tabs cmd (result == "ok") pre post
         match pf with
         | some f => f
         | none =>
@@ -426,7 +463,7 @@ def handle : Handler
           else
             let m := match res with | .ok s' => ofSt post s' | _ => pre
             cmpSt m post
-    | _, _, _, _, _, _ => badInput "parse"
+    | _, _, _, _, _, _, _ => badInput "parse"
   | _ => badInput "arity"
 
 def handlers : List (String × Handler) := [("c13.op", handle)]
